@@ -669,8 +669,14 @@ func (t *tree) parseMsgRawText(node *ast.RawTextNode) []ast.Node {
 	var (
 		r   []ast.Node
 		txt = node.Text
-		pos = node.Position()
+		// A node's position is where its first token ends, so the text
+		// starts len(txt) before it; counting from the end would place the
+		// parts beyond the text (and possibly beyond the end of the file).
+		pos = node.Position() - ast.Pos(len(node.Text))
 	)
+	if pos < 0 { // several text tokens were joined: the position is the end of the first
+		pos = 0
+	}
 	for len(txt) > 0 {
 		var start, end = len(txt), len(txt)
 		var ii = htmlTagRegexp.FindSubmatchIndex(txt)
